@@ -32,6 +32,58 @@ ASSUMPTIONS = [
 ]
 
 
+MUTANTS = [
+    ("default 4-connectivity", "AegeanTools/source_finder.py",
+     "l, n = label(a, structure=np.ones((3, 3)))", "l, n = label(a)",
+     "C02-R1"),
+    ("strict flood", "AegeanTools/source_finder.py",
+     "    a = snr >= flood_clip\n", "    a = snr > flood_clip\n", "C02-R2"),
+    ("non-strict seed", "AegeanTools/source_finder.py",
+     "if np.any(snr[xmin:xmax, ymin:ymax][own] > seed_clip):",
+     "if np.any(snr[xmin:xmax, ymin:ymax][own] >= seed_clip):", "C02-R2"),
+    ("mask tie", "AegeanTools/source_finder.py",
+     "island_mask = (snr[xmin:xmax, ymin:ymax] < flood_clip) | \\",
+     "island_mask = (snr[xmin:xmax, ymin:ymax] <= flood_clip) | \\",
+     "C02-R2"),
+    ("seed over the box", "AegeanTools/source_finder.py",
+     "if np.any(snr[xmin:xmax, ymin:ymax][own] > seed_clip):",
+     "if np.any(snr[xmin:xmax, ymin:ymax] > seed_clip):", "C02-R3"),
+    ("region pixels over the box", "AegeanTools/source_finder.py",
+     "                x, y = np.where(own)\n",
+     "                x, y = np.where(snr[xmin:xmax, ymin:ymax] >= "
+     "flood_clip)\n", "C02-R3"),
+    ("no other-label term", "AegeanTools/source_finder.py",
+     "island_mask = (snr[xmin:xmax, ymin:ymax] < flood_clip) | \\\n"
+     "                          (l[xmin:xmax, ymin:ymax] != i + 1)",
+     "island_mask = (snr[xmin:xmax, ymin:ymax] < flood_clip)", "C02-R"),
+    ("truthiness bounding box", "AegeanTools/source_finder.py",
+     "                np.isfinite(data_box),",
+     "                np.array(np.nan_to_num(data_box), dtype=bool),",
+     "C02-R4"),
+    ("bbox upper bound", "AegeanTools/models.py",
+     "self.bounding_box[0][1] = offsets[0] + cmax + 1",
+     "self.bounding_box[0][1] = offsets[0] + cmax", "C02-R5"),
+    ("bbox crossed offsets", "AegeanTools/models.py",
+     "self.bounding_box[1][0] = offsets[1] + rmin",
+     "self.bounding_box[1][0] = offsets[0] + rmin", "C02-R5"),
+    ("nan replaced in snr", "AegeanTools/source_finder.py",
+     "    snr = abs(im - bkg) / rms\n",
+     "    snr = np.nan_to_num(abs(im - bkg) / rms)\n", "C02-R2"),
+    ("seed used as upper bound", "AegeanTools/source_finder.py",
+     "    if not np.any(a):",
+     "    if not np.any(a) or np.all(snr < seed_clip / 2):", "C02-R6"),
+]
+TWINS = [
+    ("structure literal", "AegeanTools/source_finder.py",
+     "l, n = label(a, structure=np.ones((3, 3)))",
+     "l, n = label(a, structure=[[1, 1, 1], [1, 1, 1], [1, 1, 1]])"),
+    ("own via island mask", "AegeanTools/source_finder.py",
+     "                x, y = np.where(own)\n",
+     "                x, y = np.where(l[xmin:xmax, ymin:ymax] == i + 1)\n"),
+]
+
+
+
 def full3x3(prog, mod, e):
     if e is None:
         return False
